@@ -108,3 +108,47 @@ def only_the_failing_model_is_removed(order: int, bad_first: bool, bad_kind: int
         return False
     blamed = "".join(e.detail or "" for e in schemas.errors)
     return "schemas/Late" not in blamed and "schemas/Shared" not in blamed and len(schemas.errors) == 1
+
+
+# ------------------------------------------------------------------------------------------------ overridden path-item parameter
+from openapi_python_client.parser.errors import ParseError  # noqa: E402
+from openapi_python_client.parser.openapi import Endpoint  # noqa: E402
+from openapi_python_client.parser.properties import Parameters, StringProperty  # noqa: E402
+
+_LOCS = ("query", "header", "cookie", "path")
+_OVERRIDDEN = (
+    {"type": "array"},
+    {"$ref": "#/components/schemas/Missing"},
+    {"type": "integer", "default": "zz"},
+    {"enum": ["a", 1]},
+    {"type": "string", "enum": ["would", "register", "a-class"]},  # valid, but must not leave a class behind either
+)
+_EP0 = Endpoint(path="/x/{p}", method="get", description=None, name="op", requires_security=False, tags=[])
+
+
+def overridden_pathitem_parameter_is_never_looked_at(loc: int, bad: int, extra: bool) -> bool:
+    """
+    A path-item parameter that the operation re-declares (same name, same location) does not take part in the
+    operation at all: whatever its schema is — unparseable, dangling, ill-defaulted, or a valid inline enum — the
+    operation is built, keeps its own declaration, and nothing is registered on the ignored parameter's behalf.
+    pre: 0 <= loc < 4 and 0 <= bad < 5
+    post: _
+    """
+    where = _pick(_LOCS, loc)
+    op = oai.Operation.model_validate({"parameters": [{"name": "p", "in": where, "required": True, "schema": {"type": "string"}}] + ([{"name": "p", "in": "path", "required": True, "schema": {"type": "string"}}] if where != "path" else []), "responses": {}})
+    item_params = [{"name": "p", "in": where, "required": where == "path", "schema": _pick(_OVERRIDDEN, bad)}]
+    if extra:
+        item_params.append({"name": "other", "in": "query", "schema": {"type": "integer"}})
+    item = oai.PathItem.model_validate({"parameters": item_params})
+    ep1, s1, p1 = Endpoint.add_parameters(endpoint=_EP0, data=op, schemas=Schemas(), parameters=Parameters(), config=CFG)
+    if isinstance(ep1, ParseError):
+        return False
+    ep2, s2, p2 = Endpoint.add_parameters(endpoint=ep1, data=item, schemas=s1, parameters=p1, config=CFG)
+    if isinstance(ep2, ParseError):
+        return False
+    mine = [q for q in {"query": ep2.query_parameters, "header": ep2.header_parameters, "cookie": ep2.cookie_parameters, "path": ep2.path_parameters}[where] if q.name == "p"]
+    if len(mine) != 1 or not isinstance(mine[0], StringProperty):
+        return False
+    if sorted(map(str, s2.classes_by_name)) != sorted(map(str, s1.classes_by_name)):
+        return False
+    return len([q for q in ep2.query_parameters if q.name == "other"]) == (1 if extra else 0)
